@@ -6,4 +6,6 @@ func ckptDebugStart(dbPath string) bool { return false }
 func ckptDebugStop()                    {}
 func ckptDebugLog(ev, extra string)     {}
 
-func scenarioCkptFail(out string) (string, error) { return "skipped: needs the verifTrace hook", nil }
+func scenarioCkptFail(out, mode string) (string, error) {
+	return "skipped: needs the verifTrace hook", nil
+}
